@@ -38,6 +38,9 @@ type Options struct {
 	Hooks       modbus.ClientHooks
 	Flusher     bool
 	Clock       *xport.Clock
+	// OnParse, when set (network kinds only), makes the session use modbus.NewClient with a ParseResponseFunc that
+	// reports its input before delegating to the library parser of the framing.
+	OnParse func(data []byte)
 }
 
 // Outcome of one call.
@@ -72,9 +75,21 @@ func NewSession(kind int, o Options) *Session {
 		cfg := modbus.ClientConfig{ReadTimeout: o.ReadTimeout, WriteTimeout: time.Second, Hooks: o.Hooks,
 			DialContextFunc: func(ctx context.Context, address string) (net.Conn, error) { return conn, nil }}
 		var c *modbus.Client
-		if kind == TCP {
+		switch {
+		case o.OnParse != nil:
+			real, asErr := packet.ParseTCPResponse, packet.AsTCPErrorPacket
+			if kind == RTUNet {
+				real, asErr = packet.ParseRTUResponseWithCRC, packet.AsRTUErrorPacket
+			}
+			cfg.AsProtocolErrorFunc = asErr
+			cfg.ParseResponseFunc = func(data []byte) (packet.Response, error) {
+				o.OnParse(data)
+				return real(data)
+			}
+			c = modbus.NewClient(cfg)
+		case kind == TCP:
 			c = modbus.NewTCPClientWithConfig(cfg)
-		} else {
+		default:
 			c = modbus.NewRTUClientWithConfig(cfg)
 		}
 		_ = c.Connect(context.Background(), "verif:1")
